@@ -16,6 +16,20 @@ package curves
 //@   ensures id in curveReg ==> ok && c != nil
 //@   modifies nothing
 //@   trusted "registry lookup (concurrent map): a registered id yields its curve object"
+// body side of the registry functions: the concurrent map (generic library code, weakest contract) is addressed with the
+// curve's own id, unchanged
+//@ pure curveId(c SpeedCurve) string = c is *LinearSpeedCurve ? c.(*LinearSpeedCurve).Config.ID : (c is *PidSpeedCurve ? c.(*PidSpeedCurve).Config.ID : c.(*FunctionSpeedCurve).Config.ID)
+//@ impl func GetSpeedCurve
+//@   params (id)
+//@   props C06
+//@   atcall[C06.regkey] Get: key == id
+//@   modifies anything
+//@ func RegisterSpeedCurve
+//@   params (curve)
+//@   props C06
+//@   requires curve != nil && (curve is *LinearSpeedCurve ==> curve.(*LinearSpeedCurve) != nil) && (curve is *PidSpeedCurve ==> curve.(*PidSpeedCurve) != nil) && (curve is *FunctionSpeedCurve ==> curve.(*FunctionSpeedCurve) != nil)
+//@   atcall[C06.regkey] Set: key == curveId(curve) && value == curve
+//@   modifies anything
 
 //@ func (*LinearSpeedCurve).SetValue
 //@   params (c, value)
